@@ -15,6 +15,7 @@
 #include <morfuse/Common/MEM/Memory.h>
 #include "lineio.h"
 
+#include <algorithm>
 #include <cstring>
 #include <cxxabi.h>
 #include <typeinfo>
@@ -64,6 +65,7 @@ struct ItemT {
     Bytes bytes;          // raw / str / class name
     size_t lbl = 0;
     size_t slot = 0;      // pointer slot (read back after Close)
+    int mode = 0;         // KObj, how the record is read back: 0 ArchiveObject(obj), 1 ReadObject<T>(), 2 ReadObject()
     std::vector<ItemT> body;
 };
 
@@ -82,8 +84,16 @@ class VNodf : public VNode {
     MFUS_CLASS_PROTOTYPE(VNodf);
 };
 
+// what an instance created by the Archiver itself (ReadObject<T>() / ReadObject()) has to do in its Archive()
+struct Pending {
+    Run* run = nullptr;
+    const std::vector<ItemT>* script = nullptr;
+    std::vector<ItemT>* out = nullptr;
+} g_pending;
+
 struct Run {
     bool reading = false;
+    std::vector<Class*> graveyard;             // objects replaced by an instance the Archiver created
     std::map<size_t, Listener*> objs;          // label -> object of this side
     std::map<size_t, std::string> clsOf;       // label -> class name
     std::deque<Listener*> plain;               // plain pointer slots (must outlive the Archiver)
@@ -134,6 +144,7 @@ struct Run {
         vars.clear();
         safe.clear();
         for (auto& kv : objs) delete kv.second;
+        for (Class* c : graveyard) delete c;
     }
     void exec(Archiver& arc, const std::vector<ItemT>& items, std::vector<ItemT>& out);
 };
@@ -335,6 +346,40 @@ void Run::exec(Archiver& arc, const std::vector<ItemT>& items, std::vector<ItemT
             break;
         }
         case KObj: {
+            out[me].mode = it.mode;
+            if (reading && it.mode != 0) {
+                // the Archiver creates the instance: by static type (ReadObject<T>()) or from the stored class name
+                std::vector<ItemT> body;
+                g_pending.run = this;
+                g_pending.script = &it.body;
+                g_pending.out = &body;
+                const std::string want(it.bytes.begin(), it.bytes.end());
+                Class* c;
+                if (it.mode == 1) {
+                    if (want == "VNode") c = arc.ReadObject<VNode>();
+                    else if (want == "VNodf") c = arc.ReadObject<VNodf>();
+                    else c = arc.ReadObject<Listener>();
+                } else {
+                    c = arc.ReadObject();
+                }
+                g_pending = Pending();
+                Listener* l = dynamic_cast<Listener*>(c);
+                auto old = objs.find(it.lbl);
+                if (old != objs.end()) graveyard.push_back(old->second);
+                if (l) objs[it.lbl] = l; else { objs.erase(it.lbl); graveyard.push_back(c); }
+                if (it.mode == 2) {
+                    const char* cn = c->GetClassname();
+                    out[me].bytes.assign(cn, cn + std::strlen(cn));
+                }
+                if (l && !dynamic_cast<VNode*>(l)) {
+                    ItemT f;
+                    f.kind = KPrim; f.prim = U8;
+                    f.value = (l->m_NotifyList ? 1 : 0) | (l->m_WaitForList ? 2 : 0) | (l->vars ? 4 : 0) | (l->m_EndList ? 8 : 0);
+                    body.push_back(f);
+                }
+                out[me].body = std::move(body);
+                break;
+            }
             Listener* o = obj(it.lbl);
             if (VNode* n = dynamic_cast<VNode*>(o)) {
                 n->run = this;
@@ -359,6 +404,18 @@ void Run::exec(Archiver& arc, const std::vector<ItemT>& items, std::vector<ItemT
 
 void VNode::Archive(Archiver& arc)
 {
+    if (!run) {
+        // created by the Archiver: the host's script for this record
+        run = g_pending.run;
+        script = g_pending.script;
+        out = g_pending.out;
+        if (!run) return;
+        // nested records of the body set their own pending script
+        Pending saved = g_pending;
+        run->exec(arc, *script, *out);
+        g_pending = saved;
+        return;
+    }
     run->exec(arc, *script, *out);
 }
 
@@ -482,8 +539,9 @@ bool parseItem(const std::vector<std::string>& t, size_t& i, ItemT& it)
         i += 2;
         return parseValue(t, i, it.val);
     }
-    if (k == "obj") {
+    if (k == "obj" || k == "objt" || k == "objp") {
         uint64_t n;
+        it.mode = k == "obj" ? 0 : k == "objt" ? 1 : 2;
         if (i + 3 >= t.size() || !nat(t[i + 1], v) || !unhex(t[i + 2], it.bytes) || !nat(t[i + 3], n)) return false;
         it.kind = KObj;
         it.lbl = v;
@@ -515,7 +573,7 @@ void showItems(const std::vector<ItemT>& items, Run& run, std::string& s)
             break;
         }
         case KObj:
-            s += "obj " + std::to_string(it.lbl) + " " + hexOf(it.bytes) + " " + std::to_string(it.body.size());
+            s += std::string(it.mode == 0 ? "obj " : it.mode == 1 ? "objt " : "objp ") + std::to_string(it.lbl) + " " + hexOf(it.bytes) + " " + std::to_string(it.body.size());
             if (!it.body.empty()) { s += ' '; showItems(it.body, run, s); }
             break;
         }
@@ -538,12 +596,20 @@ struct Case {
 } cur;
 
 // returns "ok <items>" / "err <exception>"; `shortForm`: "ok:<fnv>" / "<exception>"
-std::string readBack(const unsigned char* data, size_t len, bool shortForm)
+std::string readBack(const unsigned char* data, size_t len, bool shortForm, bool sameCtx = false)
 {
     // an exact-size heap copy: a read past the end of the archive is an ASan report
     unsigned char* copy = static_cast<unsigned char*>(std::malloc(len ? len : 1));
     if (len) std::memcpy(copy, data, len);
     std::string res;
+    // the archive is loaded in another session: a script context (string dictionary) that has never seen the
+    // strings of the writing one; `sameCtx` reads in the writing context instead
+    std::unique_ptr<ScriptContext> fresh;
+    EventContext* const writer = &EventContext::Get();
+    if (!sameCtx) {
+        fresh.reset(new ScriptContext);
+        EventContext::Set(fresh.get());
+    }
     {
         Run run;
         run.reading = true;
@@ -580,6 +646,10 @@ std::string readBack(const unsigned char* data, size_t len, bool shortForm)
             res = shortForm ? "ok:" + std::to_string(fnv(s)) : "ok " + s;
         }
     }
+    if (fresh) {
+        fresh.reset();
+        EventContext::Set(writer);
+    }
     std::free(copy);
     return res;
 }
@@ -609,6 +679,135 @@ std::vector<Bytes> registry()
     return r;
 }
 
+// ---- Listener::Archive with its own tables (con::set<const_str, ConList>) ------------------------------
+// `lis <k> <N> (n|w|e <key-hex> <target>)*`: a Listener whose notify / wait-for / end tables are filled by the
+// given insertions (key text, target listener 1..N or 0 for a null SafePtr), archived between the target
+// listeners 1..k and k+1..N.  Answer: `<bytes> | <view as written> | <view as read back in a fresh context>`;
+// view = per table `-` or `<tableLength> <threshold> <tableLengthIndex> <count> (<key-hex> <n> <targets…>)*`,
+// written view in the order of the writer's table walk, read-back view sorted by key.
+typedef con::set<const_str, ConList> ConSetT;
+
+struct EntryView { std::string key; std::vector<size_t> tg; };
+
+std::string viewOf(const ConSetT* set, const std::map<const Listener*, size_t>& lbl, bool sorted)
+{
+    if (!set) return "-";
+    StringDictionary& dict = ScriptContext::Get().GetDirector().GetDictionary();
+    std::vector<EntryView> es;
+    for (uintptr_t i = set->tableLength; i > 0; i--) {
+        for (con::Entry<const_str, ConList>* e = set->table[i - 1]; e; e = e->Next()) {
+            EntryView v;
+            const str& t = dict.Get(e->Key());
+            const unsigned char* p = reinterpret_cast<const unsigned char*>(t.c_str());
+            v.key = e->Key() == 0u ? std::string("-") : hexOf(Bytes(p, p + t.length()));
+            const ConList& cl = e->Value();
+            for (size_t j = 1; j <= cl.NumObjects(); ++j) {
+                const Listener* l = cl.ObjectAt(j).Pointer();
+                auto it = lbl.find(l);
+                v.tg.push_back(!l ? 0 : it == lbl.end() ? 999999999 : it->second);
+            }
+            es.push_back(v);
+        }
+    }
+    if (sorted) std::sort(es.begin(), es.end(), [](const EntryView& a, const EntryView& b) { return a.key < b.key; });
+    std::string s = std::to_string(set->tableLength) + " " + std::to_string(set->threshold) + " " +
+        std::to_string(set->tableLengthIndex) + " " + std::to_string(set->count);
+    for (auto& e : es) {
+        s += " " + e.key + " " + std::to_string(e.tg.size());
+        for (size_t t : e.tg) s += " " + std::to_string(t);
+    }
+    return s;
+}
+
+void dropTables(Listener* l)
+{
+    // the tables were filled by hand (no counterpart entries in the targets): take them away before ~Listener
+    delete l->m_NotifyList; l->m_NotifyList = nullptr;
+    delete l->m_WaitForList; l->m_WaitForList = nullptr;
+    delete l->m_EndList; l->m_EndList = nullptr;
+}
+
+std::string lisCase(const std::vector<std::string>& t)
+{
+    uint64_t k, n;
+    if (t.size() < 3 || (t.size() - 3) % 3 || !nat(t[1], k) || !nat(t[2], n) || k > n || n > 64) return "bad-op";
+    struct Ins { char tab; std::string key; size_t tgt; };
+    std::vector<Ins> ins;
+    for (size_t i = 3; i < t.size(); i += 3) {
+        uint64_t g; Bytes kb;
+        if (t[i].size() != 1 || !std::strchr("nwe", t[i][0]) || !unhex(t[i + 1], kb) || kb.empty() || !nat(t[i + 2], g) || g > n) return "bad-op";
+        ins.push_back({ t[i][0], std::string(kb.begin(), kb.end()), (size_t)g });
+    }
+    version_info_t info;
+    info.header = "MFUS";
+    info.archiveName = "lis";
+    info.version = 1;
+    static char wbuf[1u << 20];
+    size_t len = 0;
+    std::string written, readback;
+    {
+        std::vector<std::unique_ptr<Listener>> tg;
+        for (size_t i = 0; i < n; ++i) tg.emplace_back(new Listener);
+        std::unique_ptr<Listener> L(new Listener);
+        StringDictionary& dict = ScriptContext::Get().GetDirector().GetDictionary();
+        for (auto& in : ins) {
+            ConSetT*& set = in.tab == 'n' ? L->m_NotifyList : in.tab == 'w' ? L->m_WaitForList : L->m_EndList;
+            if (!set) set = new ConSetT;
+            ConList& cl = set->addKeyValue(dict.Add(in.key.c_str()));
+            cl.AddObject(SafePtr<Listener>(in.tgt ? tg[in.tgt - 1].get() : nullptr));
+        }
+        std::map<const Listener*, size_t> lbl;
+        for (size_t i = 0; i < n; ++i) lbl[tg[i].get()] = i + 1;
+        written = viewOf(L->m_NotifyList, lbl, false) + " ; " + viewOf(L->m_WaitForList, lbl, false) + " ; " + viewOf(L->m_EndList, lbl, false);
+        omemstream os(wbuf, sizeof(wbuf));
+        try {
+            {
+                Archiver arc = Archiver::CreateWrite(os, info);
+                for (size_t i = 0; i < k; ++i) arc.ArchiveObject(*tg[i]);
+                arc.ArchiveObject(*L);
+                for (size_t i = k; i < n; ++i) arc.ArchiveObject(*tg[i]);
+            }
+            len = (size_t)os.tellp();
+        }
+        catch (...) { dropTables(L.get()); return "write-failed"; }
+        dropTables(L.get());
+    }
+    {
+        EventContext* const writer = &EventContext::Get();
+        std::unique_ptr<ScriptContext> fresh(new ScriptContext);
+        EventContext::Set(fresh.get());
+        unsigned char* copy = static_cast<unsigned char*>(std::malloc(len ? len : 1));
+        std::memcpy(copy, wbuf, len);
+        {
+            std::vector<Class*> got;
+            Listener* L = nullptr;
+            const char* err = nullptr;
+            imemstream in(reinterpret_cast<const char*>(copy), len);
+            try {
+                Archiver arc = Archiver::CreateRead(in, info);
+                for (size_t i = 0; i < k; ++i) got.push_back(arc.ReadObject());
+                L = dynamic_cast<Listener*>(arc.ReadObject());
+                for (size_t i = k; i < n; ++i) got.push_back(arc.ReadObject<Listener>());
+            }
+            catch (const ArchiveErrors::Base&) { err = "archive-error"; }
+            catch (...) { err = "other-exception"; }
+            if (err || !L) readback = std::string("err ") + (err ? err : "no-listener");
+            else {
+                std::map<const Listener*, size_t> lbl;
+                for (size_t i = 0; i < got.size(); ++i) lbl[dynamic_cast<Listener*>(got[i])] = i + 1;
+                readback = viewOf(L->m_NotifyList, lbl, true) + " ; " + viewOf(L->m_WaitForList, lbl, true) + " ; " + viewOf(L->m_EndList, lbl, true);
+            }
+            if (L) { dropTables(L); }
+            delete L;
+            for (Class* c : got) delete c;
+        }
+        std::free(copy);
+        fresh.reset();
+        EventContext::Set(writer);
+    }
+    return hexOf(Bytes(reinterpret_cast<unsigned char*>(wbuf), reinterpret_cast<unsigned char*>(wbuf) + len)) + " | " + written + " | " + readback;
+}
+
 } // namespace
 
 MFUS_CLASS_DECLARATION(Listener, VNode, nullptr)
@@ -628,6 +827,7 @@ int main(int argc, char** argv)
     EventContext::Set(&context);
 
     static_assert(sizeof(strdata<char>) == 24, "the model's strOverhead");
+    static_assert(sizeof(SafePtr<Listener>) == 32, "the model's safePtrSize");
     if (argc > 1 && std::string(argv[1]) == "--classes") {
         std::string s;
         for (auto& b : registry()) { if (!s.empty()) s += ' '; s += hexOf(b); }
@@ -646,6 +846,7 @@ int main(int argc, char** argv)
             say(same ? "ok" : "registry-mismatch");
             continue;
         }
+        if (t[0] == "lis") { say(lisCase(t)); continue; }
         if (t[0] == "arc") {
             uint64_t v;
             Bytes h, n;
@@ -691,7 +892,9 @@ int main(int argc, char** argv)
         }
         if (!cur.have) { say("bad-op"); continue; }
         uint64_t a, b;
-        if (t[0] == "t" && t.size() == 2 && nat(t[1], a) && a <= cur.bytes.size()) {
+        if (t[0] == "rsame" && t.size() == 1) {
+            say(readBack(cur.bytes.data(), cur.bytes.size(), false, true));
+        } else if (t[0] == "t" && t.size() == 2 && nat(t[1], a) && a <= cur.bytes.size()) {
             say(readBack(cur.bytes.data(), (size_t)a, false));
         } else if (t[0] == "s" && t.size() == 3 && nat(t[1], a) && nat(t[2], b) && a < cur.bytes.size() && b < 256) {
             Bytes m = cur.bytes;
